@@ -234,14 +234,15 @@ COMP_ASM = ["codec entry points (collect/encode/transmit) replaced by contract s
             "RG steps: the state at every lock acquisition is arbitrary subject to the monitor invariant INV of h_compress.c (rely); C12 (all shared state accessed under the lock) is assumed"]
 def comp_ob(name, entry, props, bounds, funcs, wit, unwind=12, to=600, real_heap=False, **kw):
     add(name, "h_compress.c", entry, props, cbmc=["--unwind", str(unwind)], backend="kissat", timeout=to, mem_gb=8, object_bits=10,
-        extra_src=[("process.c", ["-include", "/verif/harness/proc_rename.h"])] if real_heap else [], defines=["-DREAL_HEAP"] if real_heap else [],
+        extra_src=[("process.c", ["-include", "/verif/harness/proc_rename.h"])] if real_heap else [], defines=(["-DREAL_HEAP"] if real_heap else []) + list(kw.pop("defines", [])),
         functions=funcs + (["src/process.c:up_heap", "src/process.c:down_heap"] if real_heap else []) + ["src/process.h:pqueue macros"], bounds=bounds,
         assumptions=COMP_ASM + ([] if real_heap else ["up_heap()/down_heap() replaced by a bag with correct head extraction in this query (order inside the queue is irrelevant to the invariant); the real helpers are checked by heap_ops"]),
         witnesses=wit, **kw)
-comp_ob("stream_frame", "h_stream_frame", {"C02": "quick", "C03": "quick", "C18": "quick", "C11": "quick", "C01": "quick"},
-        "two streams in one process, levels 1..9 each, 1..3 blocks per stream with arbitrary CRCs arriving at the reorder queue in any rotation",
+for _nb, _tier in ((2, "quick"), (3, "thorough")):
+  comp_ob("stream_frame" if _nb == 2 else "stream_frame_3blk", "h_stream_frame", {"C02": _tier, "C03": _tier, "C18": _tier, "C11": _tier, "C01": _tier},
+        "two streams in one process, levels 1..9 each, first stream 1..%d blocks with arbitrary CRCs arriving at the reorder queue in any rotation, second stream empty or one block" % _nb,
         ["src/compress.c:init", "src/compress.c:uninit", "src/compress.c:write_header", "src/compress.c:write_trailer", "src/compress.c:can_reorder", "src/compress.c:do_reorder", "src/encode.h:combine_crc"],
-        ["blocks_arrive_out_of_order", "second_stream_written", "empty_second_stream"], real_heap=True)
+        ["blocks_arrive_out_of_order", "second_stream_written", "empty_second_stream"], real_heap=True, defines=["-DNBLK=%d" % _nb], to=1800)
 RGP = {"C11": "quick", "C13": "quick", "C03": "quick"}
 RGB = "worker count symbolic 1..3 (slot totals 2w / 2w+2), all counters, queue sizes and queue contents arbitrary subject to INV; one task execution with re-havoc at every lock release"
 comp_ob("rg_transmit", "h_rg_transmit", RGP, RGB, ["src/compress.c:can_transmit", "src/compress.c:do_transmit"], ["transmit_enabled", "transmit_on_reserved_slot"])
